@@ -164,8 +164,13 @@ def set_pre_grads(leaves, pre: dict) -> dict:
         if vals is not None and leaf.requires_grad:
             base = torch.tensor(vals, dtype=leaf.dtype).reshape(leaf.shape)
             if str(i) in pre.get("_strided", ()):
-                # a non-contiguous pre-existing .grad: one lane of a wider (fused) gradient buffer
-                base = torch.stack([base, base + 1.0], dim=-1)[..., 0]
+                # a non-contiguous pre-existing .grad: column-major (what autograd leaves for a transposed parameter; cannot
+                # be flattened without a copy) when it has two dimensions larger than 1, else one lane of a wider buffer
+                if sum(d > 1 for d in base.shape) >= 2 and i % 2 == 0:
+                    rev = list(range(base.ndim))[::-1]
+                    base = base.permute(rev).contiguous().permute(rev)
+                else:
+                    base = torch.stack([base, base + 1.0], dim=-1)[..., 0]
             leaf.grad = base
             before[i] = leaf.grad.clone()
         else:
